@@ -71,6 +71,9 @@ def get_finder_for(search_sid, config=None):  # get finder by Sid and optional c
 
 #########################################################
 # Config for GetFromAll
+_getters = {}  # type: ignore
+
+
 def get_getter_for(sid, attribute=None, config=None):
     """
     Configuration used by GetFromAll, to define which Getter is used for a given Sid or Search Sid.
@@ -96,8 +99,14 @@ def get_getter_for(sid, attribute=None, config=None):
     # from spil_plugins.sg.get_sg import GetFromSG
     from hamlet_plugins.next_get import NextGetter
 
+    # Getters are created once: GetFromAll groups the typed searches by Getter instance,
+    # and a Getter only removes doubles amongst the searches it receives together.
+    if not _getters:
+        _getters["next.version"] = NextGetter()
+        _getters["default"] = GetFromPaths()
+
     attribute_getters = {
-        "next.version": NextGetter()
+        "next.version": _getters["next.version"]
         #'comment': get_comment,
         #'size': get_size,
         #'time': get_time,
@@ -119,7 +128,7 @@ def get_getter_for(sid, attribute=None, config=None):
         # 'shot__sequence': GetFromSG(),
         # 'shot__task': GetFromSG(),
         # 'asset__task': GetFromSG(),
-        'default': GetFromPaths()
+        'default': _getters["default"]
     }
 
     if sid.type in getters_by_type:
